@@ -234,7 +234,12 @@ impl Stake {
             2 => 5000,
             _ => h.rng.range(0, 200) as u128,
         };
-        let period = match h.rng.below(6) {
+        let period = match if h.idx % 16 == 11 { 6 + h.rng.below(4) } else { h.rng.below(6) } {
+            // "lock for ever": the release time does not fit 64 bits - an unbond must be refused, never wrap around
+            6 => Duration::Time(18_446_744_074),
+            7 => Duration::Time(u64::MAX),
+            8 => Duration::Height(u64::MAX),
+            9 => Duration::Time(u64::MAX / 1_000_000_000),
             0 => Duration::Height(0),
             1 => Duration::Height(1),
             2 => Duration::Height(h.rng.range(2, 10)),
@@ -490,8 +495,13 @@ impl Stake {
                 }
                 *e -= *amount;
                 let rel = match w.period {
-                    Duration::Height(n) => Exp::H(hgt + n),
-                    Duration::Time(s) => Exp::T(now + s * 1_000_000_000),
+                    Duration::Height(n) => hgt.checked_add(n).map(Exp::H),
+                    Duration::Time(s) => s.checked_mul(1_000_000_000).and_then(|d| now.checked_add(d)).map(Exp::T),
+                };
+                let Some(rel) = rel else {
+                    // now + period is beyond the end of time: there is no release moment, so there may be no exit
+                    h.violate(&format!("{prop}/claims/unbond/accepted-although-release-time-overflows"), format!("unbond of {amount} accepted at h={hgt} t={now} with period {:?}", w.period));
+                    return false;
                 };
                 expected_claims.entry(sender.to_string()).or_default().push((*amount, rel));
                 h.out.count("unbonds_ok");
